@@ -96,6 +96,25 @@ func l2ClassOf(c *l2Comp, v string) string {
 			return "q-multiple"
 		}
 	}
+	if c.bitlen {
+		// a modulus feeding a rejection sampler that draws ceil(bitlen/256)*256 bits: what matters is whether the
+		// bit length is (just below) a multiple of 256. Odd values only (even ones are refused by a parity/sieve test).
+		if v == "1" {
+			return "bitlen-not-multiple-of-256"
+		}
+		if strings.HasPrefix(v, "2^") {
+			if i := strings.IndexAny(v[2:], "+-"); i >= 0 {
+				k, _ := strconv.Atoi(v[2 : 2+i])
+				bl := k + 1
+				if v[2+i] == '-' {
+					bl = k
+				}
+				if bl%256 != 0 {
+					return "bitlen-not-multiple-of-256"
+				}
+			}
+		}
+	}
 	switch c.kind {
 	case kModulus:
 		switch {
@@ -225,25 +244,37 @@ var l2Torsion []ref.Point
 
 // resolvePoint turns a symbolic point value into an ECPoint on (or pretending to be on) ec.
 func (c *l2Ctx) resolvePoint(ec elliptic.Curve, v string, base *crypto.ECPoint) *crypto.ECPoint {
+	// valid points go through the checking constructor; only the (inadmissible, never executed) off-curve
+	// objects would need the unchecked one
+	valid := func(cv elliptic.Curve, x, y *big.Int) *crypto.ECPoint {
+		p, err := crypto.NewECPoint(cv, x, y)
+		if err != nil {
+			panic("c06l2: value " + v + " is not a valid point: " + err.Error())
+		}
+		return p
+	}
 	switch v {
 	case "zero(0,0)":
 		return crypto.NewECPointNoCurveCheck(ec, big.NewInt(0), big.NewInt(0))
 	case "neutral(0,1)":
+		if l2IsEd(ec) {
+			return valid(ec, big.NewInt(0), big.NewInt(1))
+		}
 		return crypto.NewECPointNoCurveCheck(ec, big.NewInt(0), big.NewInt(1))
 	case "other-curve":
 		o := l2OtherCurve(ec)
-		return crypto.NewECPointNoCurveCheck(o, new(big.Int).Set(o.Params().Gx), new(big.Int).Set(o.Params().Gy))
+		return valid(o, new(big.Int).Set(o.Params().Gx), new(big.Int).Set(o.Params().Gy))
 	case "off-curve":
 		o := l2OtherCurve(ec)
 		return crypto.NewECPointNoCurveCheck(ec, new(big.Int).Mod(o.Params().Gx, ec.Params().P), new(big.Int).Mod(o.Params().Gy, ec.Params().P))
 	case "G":
-		return crypto.NewECPointNoCurveCheck(ec, new(big.Int).Set(ec.Params().Gx), new(big.Int).Set(ec.Params().Gy))
+		return valid(ec, new(big.Int).Set(ec.Params().Gx), new(big.Int).Set(ec.Params().Gy))
 	case "neg-base":
 		p := ec.Params().P
 		if l2IsEd(ec) {
-			return crypto.NewECPointNoCurveCheck(ec, new(big.Int).Mod(new(big.Int).Neg(base.X()), p), base.Y())
+			return valid(ec, new(big.Int).Mod(new(big.Int).Neg(base.X()), p), base.Y())
 		}
-		return crypto.NewECPointNoCurveCheck(ec, base.X(), new(big.Int).Mod(new(big.Int).Neg(base.Y()), p))
+		return valid(ec, base.X(), new(big.Int).Mod(new(big.Int).Neg(base.Y()), p))
 	}
 	if strings.HasPrefix(v, "torsion") {
 		if l2Torsion == nil {
@@ -251,7 +282,7 @@ func (c *l2Ctx) resolvePoint(ec elliptic.Curve, v string, base *crypto.ECPoint) 
 		}
 		k, _ := strconv.Atoi(v[len("torsion"):])
 		t := l2Torsion[k]
-		return crypto.NewECPointNoCurveCheck(ec, new(big.Int).Set(t.X), new(big.Int).Set(t.Y))
+		return valid(ec, new(big.Int).Set(t.X), new(big.Int).Set(t.Y))
 	}
 	panic("c06l2: unknown point value name " + v)
 }
